@@ -318,6 +318,17 @@ func (c *SimConn) Write(p []byte) (int, error) {
 			return k, err
 		}
 	}
+	if dl := c.wdeadline; !dl.IsZero() && !time.Now().Before(dl) {
+		// like a socket: a write whose deadline has already passed fails at once
+		rec.N = 0
+		rec.Err = "write deadline exceeded"
+		rec.End = rec.At
+		c.Writes = append(c.Writes, rec)
+		c.mu.Unlock()
+		c.e.Fault("write-timeout")
+		c.e.Poke()
+		return 0, os.ErrDeadlineExceeded
+	}
 	c.wlog = append(c.wlog, p...)
 	rec.N = len(p)
 	rec.End = rec.At
